@@ -131,8 +131,8 @@ func (c Case) opts() hx.Opts {
 
 func check(c Case) hx.Verdict {
 	if (c.In == "yaml" || c.In == "") && !c.NullIn && strings.Contains(c.Input, "*") && hx.YAMLCyclic(c.Input) {
-		// a self-referential alias can recurse without bound, which no recover()
-		// can catch: judge it in a separate, memory-limited process
+		// a self-referential alias is rejected by the decoder since fix 9bdc188; when that is lost the recursion
+		// is without bound, which no recover() can catch: judge it in a separate, memory-limited process
 		return checkBinLimited(c)
 	}
 	o := hx.Run(c.Expr, c.Input, c.opts())
